@@ -86,8 +86,8 @@ def classify(tr, line, clause):
             utf8 = False
         if not utf8 and clause in ("TextOk", "TextAgain") and exc == "UnicodeDecodeError":
             return "F5:URI:target-not-utf8:to_text:UnicodeDecodeError"
-        if utf8 and (34 in tgt or 92 in tgt) and clause in ("ParseOk", "WireEq", "Equal"):
-            return "F5:URI:target-quote-or-backslash:not-escaped:%s" % clause
+        if utf8 and any(o in (34, 92, 127) or o < 32 for o in tgt) and clause in ("ParseOk", "WireEq", "Equal"):
+            return "F5:URI:target-needs-escaping:not-escaped:%s" % clause
     if clause == "GenericParse" and e.get("gc") in ("grel", "gabs") and exc == "SyntaxError" and _contains(src.get("w0", []), ORIGIN_WIRE):
         return "F20:generic-form-of-known-type:name-under-origin:%s:SyntaxError" % e.get("gc")
     if ty == "IPSECKEY" and kind == "wire" and clause == "ParseOk" and len(vec) == 5 and vec[4] == [] and vec[2] == 0:
